@@ -272,6 +272,45 @@ def r1(ctx):
                          f'{q}: a path returns {S} / {Q} of different lengths (aligned after the last rewrite: {bad[0][0]}, slices on {S}: {list(bad[0][1])}, on {Q}: {list(bad[0][2])})',
                          key=f'{q}:trim-keeps-lengths', what=f'{q}: trimmed sequence and qualities can have different lengths')
     ctx.need('C02-R1', n_trim, 1, 'trimming helpers returning (sequence, qualities)')
+    # (d) a trimming helper is handed the sequence and the qualities of ONE record and its result goes back to that record
+    n_calls = 0
+    for rel in files:
+        m = ctx.ix.module(rel)
+        for q, ds in m.defs.items():
+            for f in ds:
+                if not isinstance(f, ast.FunctionDef):
+                    continue
+                # positions of an unpacked record tuple: `a, b = records` -> a is records[0], b is records[1]
+                pos = {}
+                for st in walk_no_nested(f):
+                    if isinstance(st, ast.Assign) and len(st.targets) == 1 and isinstance(st.targets[0], (ast.Tuple, ast.List)) and isinstance(st.value, ast.Name):
+                        for i, e in enumerate(st.targets[0].elts):
+                            if isinstance(e, ast.Name):
+                                pos[e.id] = f'{st.value.id}[{i}]'
+                canon = lambda t: pos.get(t, t)
+                for st in walk_no_nested(f):
+                    if not (isinstance(st, ast.Assign) and len(st.targets) == 1 and isinstance(st.targets[0], ast.Tuple) and len(st.targets[0].elts) == 2 and isinstance(st.value, ast.Call)):
+                        continue
+                    t0, t1 = st.targets[0].elts
+                    if not (isinstance(t0, ast.Attribute) and isinstance(t1, ast.Attribute) and t0.attr == 'sequence' and t1.attr in ('qualities', 'qual')):
+                        continue
+                    a_seq = [a for a in st.value.args if isinstance(a, ast.Attribute) and a.attr == 'sequence']
+                    a_q = [a for a in st.value.args if isinstance(a, ast.Attribute) and a.attr in ('qualities', 'qual')]
+                    if len(a_seq) != 1 or len(a_q) != 1:
+                        continue
+                    n_calls += 1
+                    recs = [canon(src(x.value)) for x in (t0, t1, a_seq[0], a_q[0])]
+                    if len(set(recs)) == 1:
+                        ctx.emit('C02-R1', True, rel, st, f'{q}: `{src(st)[:120]}` trims sequence and qualities of the one record {recs[0]}', key=f'{q}:trim-one-record')
+                    else:
+                        idx = [r for r in recs if r.endswith(']')]
+                        definite = len({r for r in idx}) > 1 and len({r.split('[')[0] for r in idx}) == 1 and len(idx) == 4
+                        if definite:
+                            ctx.emit('C02-R1', False, rel, st, f'{q}: `{src(st)[:160]}` mixes records {sorted(set(recs))}: the trimmed bases of one mate are paired with the qualities of the other mate',
+                                     key=f'{q}:trim-one-record', what=f'{q}: sequence and qualities handed to the trimming helper come from different mates')
+                        else:
+                            ctx.emit('C02-R1', False, rel, st, f'{q}: `{src(st)[:160]}`: cannot show that {sorted(set(recs))} denote one record', key=f'{q}:trim-one-record', undecided=True)
+    ctx.need('C02-R1', n_calls, 1, 'trimming-helper call sites')
     # the scattered helpers are twins
     a, b = ctx.fn(BASEDEMUX, 'apply_slices_seq'), ctx.fn(BASEDEMUX, 'apply_slices_qual')
     def norm(f):
